@@ -2,10 +2,12 @@
 #include "qsx.hpp"
 namespace qsx {
 void register_c06();
+void register_solve();
 void register_all_properties() {
   static bool done = false;
   if (done) return;
   done = true;
   register_c06();
+  register_solve();
 }
 }
